@@ -68,7 +68,7 @@ Section Hash.
      chain of bucket s is detached and each of its elements is re-inserted, in chain order, into
      the bucket its hash selects in the *new* size (elements that land in a not yet visited bucket
      are processed again when the loop gets there) *)
-  Definition new_size (count : nat) : nat := Nat.max 11 ((count + 1) + (count + 2) / 2).
+  Definition new_size (count : nat) : nat := Nat.max 11 (Nat.add (Nat.add count 1) (Nat.div (Nat.add count 2) 2)).
 
   Definition rehash_chain (c : list bytes) (t : table) : table :=
     fold_left (fun t e => t_insert e t) c t.
@@ -79,10 +79,10 @@ Section Hash.
   Definition t_expand (count : nat) (t : table) : table :=
     let old := length t in
     let new := new_size count in
-    fold_left expand_step (seq 0 old) (t ++ repeat [] (new - old)).
+    fold_left expand_step (seq 0 old) (t ++ repeat [] (Nat.sub new old)).
 
   (* map_subtree: "if (count + 1 >= 2 * hash_size) map_expand", then find; insert when adding *)
-  Definition needs_expand (count : nat) (t : table) : bool := Nat.leb (2 * length t) (count + 1).
+  Definition needs_expand (count : nat) (t : table) : bool := Nat.leb (Nat.mul 2 (length t)) (Nat.add count 1).
   Definition t_prepare (count : nat) (t : table) : table :=
     if needs_expand count t then t_expand count t else t.
 End Hash.
